@@ -614,6 +614,10 @@ pub fn judge(inv: &mut Inv, prev_clean: Option<&BTreeSet<usize>>, prev_failed: &
     let proj = &sh.loaded; // the manifest n2 had loaded at the end of the invocation
     if sh.regen_since_load && !matches!(inv.res, Res::Death | Res::Panic(..)) && !sh.finishes.iter().any(|f| f.outcome != Outcome::Success) {
         v.push(Viol::new("C17", "regenerated-without-reload", "the manifest was regenerated but n2 finished without reloading it"));
+        if matches!(inv.res, Res::Exit(0)) {
+            // C02 speaks of the current manifest: what was built follows a text that is no longer on disk
+            v.push(Viol::new("C02", "built-from-superseded-manifest", "n2 exited 0 having built from the manifest text it loaded before that text was regenerated in this invocation"));
+        }
     }
     let in_log: BTreeSet<&String> = world.dbfile.iter().flat_map(|r| r.outs.iter().chain(&r.deps)).collect();
     let spec = &sh.spec;
